@@ -508,6 +508,7 @@ class CodeGen:
         self.block_depth = 0
         self.fn = 0
         self.origin = {}      # variable name -> description of the statement that made it
+        self.local_blocks = 0
         self.helpers = {}     # helper id -> (region id, wrapped-function variable, holder of the caller's model)
 
     # -- emit helpers
@@ -773,6 +774,44 @@ class CodeGen:
             self.emit("__leave__(%d)" % rid)
             self.ind -= 1
         self.wrap_try(s, body)
+        self.step({"kind": "after_region", "rid": rid})
+
+    def st_local_block(self, s):
+        """A BranchingValues object local to the enclosing region's function with one _if block whose body may raise:
+        the exception leaves the block open, the enclosing region restores the guard, and the abandoned object is
+        collected later."""
+        if self.mode != "traced":
+            raise NotImplementedError("local blocks exist in the traced run only")
+        if not self.region_ids:
+            raise ValueError("local_block outside a region")
+        self.rid += 1
+        rid = self.rid
+        self.local_blocks += 1
+        cnm, mnm, bnm = "_c%d" % rid, "_m%d" % rid, "_b%d" % rid
+        self.emit("%s = %s" % (cnm, self.ex(s["cond"])))
+        self.emit("%s = [__cv__(%s)]" % (mnm, cnm))
+        self.emit("%s = BranchingValues()" % bnm)
+        self.emit("%s.y = 0" % bnm)
+        self.emit("__enter__(%d)" % rid)
+        self.emit("if _if(%s, ctx=%s):" % (cnm, bnm) if s.get("explicit") else "if _if(%s):" % cnm)
+        self.ind += 1
+        self.regions.append(mnm)
+        self.region_ids.append((rid, "t"))
+        self.deco_stack.append(None)
+        saved = dict(self.counts)
+        self.step({"kind": "region_entry"})
+        self.emit("%s.y = %s" % (bnm, self.ex(s["value"])))
+        for x in s["body"]:
+            self.st(x)
+        if s.get("bug"):
+            self.emit("{}['missing']")
+        self.counts = saved
+        self.deco_stack.pop()
+        self.region_ids.pop()
+        self.regions.pop()
+        self.ind -= 1
+        self.emit("_endif(ctx=%s)" % bnm if s.get("explicit") else "_endif()")
+        self.emit("__leave__(%d)" % rid)
         self.step({"kind": "after_region", "rid": rid})
 
     def st_def_helper(self, s):
